@@ -45,7 +45,7 @@ def get_tree(tid):
         return gen.random_tree(int(tid[1:]))
     if tid.startswith("F:"):
         return None
-    if tid.startswith("E_"):
+    if tid.startswith("E_") and ":" not in tid:
         from .trees import edges
 
         return edges.get(tid)
